@@ -34,6 +34,7 @@ type gtFunc struct {
 	ptr     bool     // pointer receiver
 	params  []string // Go types of the parameters (receiver excluded)
 	results []string // Go types of the results
+	pkg     string   // "" for the root package, else the package name (functions of internal/bigints)
 }
 
 type gotr struct {
@@ -49,6 +50,7 @@ type gotr struct {
 	named  []string            // named results of the current function
 	depth  int                 // loop nesting depth
 	mut    map[string]bool     // variables assigned somewhere in the current function
+	innerRet bool              // translating the body of a nested loop that contains a return
 }
 
 func (t *gotr) fail(n ast.Node, why string) {
@@ -177,6 +179,12 @@ func (t *gotr) expr(e ast.Expr) (string, string) {
 			return "(← idx " + a + " " + i + ")", el
 		}
 	case *ast.UnaryExpr:
+		if v.Op == token.SUB {
+			x, ty := t.expr(v.X)
+			if ty == "int" {
+				return "(-" + x + ")", "int"
+			}
+		}
 		if v.Op == token.NOT {
 			s, ty := t.expr(v.X)
 			if ty == "bool" {
@@ -263,7 +271,8 @@ func (t *gotr) args(call *ast.CallExpr, want []string) []string {
 	out := []string{}
 	for i, a := range call.Args {
 		s, ty := t.expr(a)
-		if ty != want[i] && !(ty == "int" && want[i] == "uint" && isLit(a)) {
+		sliceOfBig := func(x string) bool { return x == "Chain" || x == "[]*big.Int" }
+		if ty != want[i] && !(ty == "int" && want[i] == "uint" && isLit(a)) && !(sliceOfBig(ty) && sliceOfBig(want[i])) {
 			t.fail(a, "argument type "+ty+", want "+want[i])
 		}
 		out = append(out, s)
@@ -289,6 +298,20 @@ func (t *gotr) call(v *ast.CallExpr) (string, string) {
 			if len(v.Args) == 1 && Src(t.fset, v.Args[0]) == "big.Int" {
 				return "(bNewInt 0)", "*big.Int"
 			}
+		case "append":
+			if len(v.Args) == 2 {
+				x, xt := t.expr(v.Args[0])
+				e, et := t.expr(v.Args[1])
+				if v.Ellipsis != token.NoPos {
+					if _, ok := gtElem[xt]; ok && gtElem[xt] == gtElem[et] {
+						return "(" + x + " ++ " + e + ")", xt
+					}
+					break
+				}
+				if gtElem[xt] == et {
+					return "(" + x + " ++ [" + e + "])", xt
+				}
+			}
 		case "len":
 			if len(v.Args) == 1 {
 				s, ty := t.expr(v.Args[0])
@@ -297,6 +320,14 @@ func (t *gotr) call(v *ast.CallExpr) (string, string) {
 				}
 			}
 		case "make":
+			if (len(v.Args) == 2 || len(v.Args) == 3) && Src(t.fset, v.Args[0]) == "[]*big.Int" {
+				// make([]*big.Int, n[, cap]): n nil pointers, modelled as n placeholders that the
+				// translated functions overwrite before reading (capacity is not modelled)
+				n, nt := t.expr(v.Args[1])
+				if nt == "int" {
+					return "(← makeBigs " + n + ")", "[]*big.Int"
+				}
+			}
 			if len(v.Args) == 2 && Src(t.fset, v.Args[0]) == "[]int" {
 				n, nt := t.expr(v.Args[1])
 				if nt == "int" {
@@ -304,18 +335,40 @@ func (t *gotr) call(v *ast.CallExpr) (string, string) {
 				}
 			}
 		}
-		if g, ok := t.funcs[f.Name]; ok && !g.ptr {
+		key := f.Name
+		if t.cur.pkg != "" {
+			key = t.cur.pkg + "." + f.Name
+		}
+		if g, ok := t.funcs[key]; ok && !g.ptr {
 			a := t.args(v, g.params)
 			return "(← " + strings.TrimSpace(g.lean+" "+strings.Join(a, " ")) + ")", resultType(g)
 		}
 	case *ast.SelectorExpr:
 		src := Src(t.fset, f)
-		if src == "fmt.Errorf" && len(v.Args) == 2 {
+		if (src == "fmt.Errorf" || src == "errors.New") && len(v.Args) >= 1 {
 			if lit, ok := v.Args[0].(*ast.BasicLit); ok && lit.Kind == token.STRING {
-				a, aty := t.expr(v.Args[1])
-				if aty == "int" {
-					return "(goErr " + lit.Value + " [" + a + "])", "error"
+				as := []string{}
+				good := src == "fmt.Errorf" || len(v.Args) == 1
+				for _, x := range v.Args[1:] {
+					a, aty := t.expr(x)
+					if aty != "int" && aty != "*big.Int" {
+						good = false
+					}
+					as = append(as, a)
 				}
+				if good {
+					return "(goErr " + lit.Value + " [" + strings.Join(as, ", ") + "])", "error"
+				}
+			}
+		}
+		if x, ok := f.X.(*ast.Ident); ok && x.Name == "bigints" {
+			if g, ok := t.funcs["bigints."+f.Sel.Name]; ok {
+				a := t.args(v, g.params)
+				rt := resultType(g)
+				if rt == "[]*big.Int" && t.cur.pkg == "" {
+					rt = "Chain" // the root package converts implicitly (Chain is []*big.Int)
+				}
+				return "(← " + strings.TrimSpace(g.lean+" "+strings.Join(a, " ")) + ")", rt
 			}
 		}
 		if x, ok := f.X.(*ast.Ident); ok && x.Name == "bigint" {
@@ -478,7 +531,7 @@ func (t *gotr) isLoop(s ast.Stmt) (ast.Stmt, bool) {
 func (t *gotr) stmt(s ast.Stmt, ind string) string {
 	switch v := s.(type) {
 	case *ast.ReturnStmt:
-		if t.depth > 0 && t.depth != 1 {
+		if t.depth > 1 && !t.innerRet {
 			t.fail(s, "return inside a nested loop")
 		}
 		vals := []string{}
@@ -497,6 +550,11 @@ func (t *gotr) stmt(s ast.Stmt, ind string) string {
 			if i < len(t.cur.results) {
 				want = t.cur.results[i]
 			}
+			if e == "goNil" {
+				if _, isSlice := gtElem[want]; isSlice {
+					e, ty = "[]", want
+				}
+			}
 			if ty != want {
 				t.fail(r, "result type "+ty+", want "+want)
 			}
@@ -505,12 +563,16 @@ func (t *gotr) stmt(s ast.Stmt, ind string) string {
 		if len(vals) != len(t.cur.results) {
 			t.fail(s, "number of results")
 		}
+		if t.depth > 1 {
+			// inside a nested loop: the loop function hands the function's result to its caller
+			return ind + "return (Sum.inl " + t.retTuple(s, vals) + ")\n"
+		}
 		return ind + "return " + t.retTuple(s, vals) + "\n"
 	case *ast.AssignStmt:
 		// *p = append(*p, E) / x = append(x, E)
 		if len(v.Lhs) == 1 && len(v.Rhs) == 1 {
 			if c, ok := v.Rhs[0].(*ast.CallExpr); ok && v.Tok == token.ASSIGN {
-				if id, ok := c.Fun.(*ast.Ident); ok && id.Name == "append" && len(c.Args) == 2 && Src(t.fset, c.Args[0]) == Src(t.fset, v.Lhs[0]) {
+				if id, ok := c.Fun.(*ast.Ident); ok && id.Name == "append" && len(c.Args) == 2 && c.Ellipsis == token.NoPos && Src(t.fset, c.Args[0]) == Src(t.fset, v.Lhs[0]) {
 					x, xt := t.expr(v.Lhs[0])
 					e, et := t.expr(c.Args[1])
 					if gtElem[xt] == et {
@@ -569,6 +631,19 @@ func (t *gotr) stmt(s ast.Stmt, ind string) string {
 				t.err = save
 			}
 		}
+		if len(v.Lhs) == 1 && len(v.Rhs) == 1 && v.Tok == token.ASSIGN {
+			if ix, ok := v.Lhs[0].(*ast.IndexExpr); ok {
+				if id, ok := ix.X.(*ast.Ident); ok {
+					if aty, ok := t.lookup(id.Name); ok {
+						i, ity := t.expr(ix.Index)
+						e, ety := t.expr(v.Rhs[0])
+						if ity == "int" && gtElem[aty] == ety {
+							return ind + id.Name + " := (← setIdx " + id.Name + " " + i + " " + e + ")\n"
+						}
+					}
+				}
+			}
+		}
 		if len(v.Lhs) == 1 && len(v.Rhs) == 1 {
 			if id, ok := v.Lhs[0].(*ast.Ident); ok {
 				e, ty := t.expr(v.Rhs[0])
@@ -576,7 +651,7 @@ func (t *gotr) stmt(s ast.Stmt, ind string) string {
 					t.define(s, id.Name, ty)
 					return ind + t.letKw(id.Name) + id.Name + " : " + t.leanType(s, ty) + " := " + e + "\n"
 				}
-				if lt, ok := t.lookup(id.Name); ok && v.Tok == token.ASSIGN && (lt == ty || (lt == "uint" && ty == "int" && isLit(v.Rhs[0]))) {
+				if lt, ok := t.lookup(id.Name); ok && v.Tok == token.ASSIGN && (lt == ty || (lt == "uint" && ty == "int" && isLit(v.Rhs[0])) || (gtElem[lt] == "*big.Int" && gtElem[ty] == "*big.Int")) {
 					if t.depth > 0 && t.isLoopVar(id.Name) {
 						t.fail(s, "assignment to a loop variable")
 					}
@@ -658,6 +733,32 @@ func (t *gotr) stmt(s ast.Stmt, ind string) string {
 		}
 		return out
 	case *ast.SwitchStmt:
+		if v.Init == nil && v.Tag != nil {
+			// switch E { case k: .. }: E evaluated once, compared in order (integer tags only)
+			tag, tty := t.expr(v.Tag)
+			if tty != "int" {
+				t.fail(s, "switch tag type")
+			}
+			out := ind + "let _tag : Int := " + tag + "\n"
+			kw := "if "
+			for _, cc := range v.Body.List {
+				cl := cc.(*ast.CaseClause)
+				if len(cl.List) != 1 {
+					t.fail(cl, "case list")
+					continue
+				}
+				c, cty := t.expr(cl.List[0])
+				if cty != "int" {
+					t.fail(cl, "case type")
+				}
+				out += ind + kw + "(_tag == " + c + ") then\n"
+				t.push()
+				out += t.blockOrUnit(cl.Body, ind+"  ")
+				t.pop()
+				kw = "else if "
+			}
+			return out
+		}
 		if v.Init == nil && v.Tag == nil {
 			out := ""
 			kw := "if "
@@ -800,6 +901,35 @@ func (t *gotr) loop(s ast.Stmt, rest []ast.Stmt, ind string, tail string) string
 					t.fail(s, "loop after a converging loop")
 				}
 			}
+		case v.Init == nil && v.Post == nil && v.Cond != nil:
+			// for C { .. } with C a conjunction of `len(v) > 0`: run with fuel Σ len(v) and the
+			// condition re-checked; running out of fuel with C still true yields `goDiverge`
+			converge = true
+			fuel := []string{}
+			var conj func(e ast.Expr)
+			conj = func(e ast.Expr) {
+				if be, ok := e.(*ast.BinaryExpr); ok && be.Op == token.LAND {
+					conj(be.X)
+					conj(be.Y)
+					return
+				}
+				if be, ok := e.(*ast.BinaryExpr); ok && be.Op == token.GTR && Src(t.fset, be.Y) == "0" {
+					if c, ok := be.X.(*ast.CallExpr); ok && Src(t.fset, c.Fun) == "len" && len(c.Args) == 1 {
+						x, _ := t.expr(c.Args[0])
+						fuel = append(fuel, "(len "+x+")")
+						return
+					}
+				}
+				t.fail(s, "condition of a while loop")
+			}
+			conj(v.Cond)
+			callArg = "(Int.toNat (" + strings.Join(fuel, " + ") + "))"
+			condS, _ = t.expr(v.Cond)
+			for _, st := range rest {
+				if _, isL := t.isLoop(st); isL {
+					t.fail(s, "loop after a while loop")
+				}
+			}
 		default:
 			t.fail(s, "unsupported for loop")
 			t.pop()
@@ -855,6 +985,29 @@ func (t *gotr) loop(s ast.Stmt, rest []ast.Stmt, ind string, tail string) string
 		}
 	}
 	resType := strings.Join(rts, " × ")
+	hasRet := false
+	if !outer {
+		ast.Inspect(&ast.BlockStmt{List: body}, func(n ast.Node) bool {
+			if _, ok := n.(*ast.ReturnStmt); ok {
+				hasRet = true
+			}
+			return true
+		})
+	}
+	if hasRet {
+		// a nested loop that may leave the function: Sum.inl = the function's result
+		frs := []string{}
+		if t.cur.ptr {
+			frs = append(frs, "List GOp")
+		}
+		for _, r := range t.cur.results {
+			frs = append(frs, t.leanType(s, r))
+		}
+		resType = "(" + strings.Join(frs, " × ") + ") ⊕ (" + resType + ")"
+		if t.depth != 1 {
+			t.fail(s, "returning loop nested more than once")
+		}
+	}
 	var d strings.Builder
 	sig := []string{domType}
 	if idxName != "" {
@@ -893,12 +1046,15 @@ func (t *gotr) loop(s ast.Stmt, rest []ast.Stmt, ind string, tail string) string
 		bind = "      "
 	}
 	t.depth++
+	saveInner := t.innerRet
+	t.innerRet = hasRet
 	recCall := name + " " + recArg
 	if idxName != "" {
 		recCall += " (" + idxName + " + 1)"
 	}
 	recCall += " " + strings.Join(vars, " ")
 	bodyS := t.block(body, bind, recCall)
+	t.innerRet = saveInner
 	t.depth--
 	t.pop()
 	loopVars = saveLoopVars
@@ -911,6 +1067,9 @@ func (t *gotr) loop(s ast.Stmt, rest []ast.Stmt, ind string, tail string) string
 		restS = t.block(rest, bind, tail)
 	} else {
 		restS = bind + "return " + tuple(assigned) + "\n"
+		if hasRet {
+			restS = bind + "return (Sum.inr " + tuple(assigned) + ")\n"
+		}
 	}
 	idxPat := "_"
 	if converge || idxName != "" && (mentions(&ast.BlockStmt{List: rest}, idxName)) {
@@ -944,6 +1103,26 @@ func (t *gotr) loop(s ast.Stmt, rest []ast.Stmt, ind string, tail string) string
 		return pre + ind + "return (← " + call + ")\n"
 	}
 	out := pre
+	if hasRet {
+		out += ind + "match (← " + call + ") with\n" + ind + "| .inl _r => return _r\n"
+		switch len(assigned) {
+		case 0:
+			out += ind + "| .inr _ => pure ()\n"
+		case 1:
+			out += ind + "| .inr _v => " + assigned[0] + " := _v\n"
+		default:
+			ps, as := []string{}, []string{}
+			for _, a := range assigned {
+				ps = append(ps, a+"'")
+				as = append(as, a+" := "+a+"'")
+			}
+			out += ind + "| .inr (" + strings.Join(ps, ", ") + ") =>\n"
+			for _, a := range as {
+				out += ind + "  " + a + "\n"
+			}
+		}
+		return out + t.block(rest, ind, tail)
+	}
 	switch len(assigned) {
 	case 0:
 		out += ind + "let _ ← " + call + "\n"
